@@ -210,6 +210,27 @@ func runC13Large(c c13Large, rec *stat.Rec) *stat.Failure {
 		_, _ = x.Write(b)
 		m.Write(b)
 	}
+	// the same object after Reset: short messages (the "fewer than 16 bytes" branch) after a multi-GiB history
+	for n := 0; n <= 40; n++ {
+		x.Reset()
+		m.Reset()
+		if n%2 == 1 || n > 16 {
+			_, _ = x.Write(pat[5 : 5+n])
+			m.Write(pat[5 : 5+n])
+		} // (even n <= 16: Sum32 right after Reset, then the write)
+		rec.Eval()
+		rec.Class("large/reset-after-2^32-then-short-message")
+		if got, want := x.Sum32(), m.Sum32(); got != want {
+			return stat.Failf("C13/wrong-after-reset-following-a-large-total", "after %d bytes, Reset, then %d bytes: Sum32=%08x reference %08x", c.Start+uint64(c.Steps)+1, m.Total(), got, want)
+		}
+		if !(n%2 == 1 || n > 16) {
+			_, _ = x.Write(pat[5 : 5+n])
+			m.Write(pat[5 : 5+n])
+			if got, want := x.Sum32(), m.Sum32(); got != want {
+				return stat.Failf("C13/wrong-after-reset-following-a-large-total", "after %d bytes, Reset, Sum32, then %d bytes: Sum32=%08x reference %08x", c.Start+uint64(c.Steps)+1, m.Total(), got, want)
+			}
+		}
+	}
 	rec.Sample(map[string]interface{}{"check": "large", "start": c.Start, "chunk": chunk, "single-byte steps": c.Steps})
 	return nil
 }
@@ -223,7 +244,8 @@ func init() {
 const c13Rule = "one-shot: every length 0..300 x 3 contents, then generated data up to 1 MiB; streaming: rapid-drawn op lists " +
 	"(write lengths from the boundary set, Sum32 probes, Reset, zero-value use) plus the exhaustive 16 x next-length table; large: a bulk " +
 	"stream up to 2^32-1 (and 2^33-1) bytes then single-byte steps with a comparison after each. Non-trivial = streaming case with >= 2 " +
-	"writes that cross a 16-byte boundary (distinct by write-length list and content) or any comparison at a total >= 2^32."
+	"writes that cross a 16-byte boundary (distinct by write-length list and content) or any comparison at a total >= 2^32. After the large walk the same object is Reset and hashes 0..40 bytes. " +
+	"Constructed inputs whose stripe leaves all four accumulators at zero, with every Write boundary in the following 16 bytes."
 
 func TestC13Pinned(t *testing.T) {
 	rec := stat.For("C13")
@@ -241,6 +263,41 @@ func TestC13Pinned(t *testing.T) {
 				c := c13Stream{Fresh: buffered%2 == 0, Data: gen.Data{Segs: []gen.Seg{{K: "rand", N: buffered + next + tail + 32, S: uint64(buffered*131 + next)}}},
 					Ops: []c13Op{{Op: "write", N: 32}, {Op: "write", N: buffered}, {Op: "sum"}, {Op: "write", N: next}, {Op: "sum"}, {Op: "write", N: tail}, {Op: "sumbytes"}}}
 				pinned(t, "C13", "C13/stream", c, runC13Stream)
+			}
+		}
+	}
+}
+
+// TestC13ZeroLanes: inputs constructed so that all four accumulators are zero after a stripe (the state then looks like
+// the zero value of the hasher), with every Write boundary in the 16 bytes that follow.
+func TestC13ZeroLanes(t *testing.T) {
+	rec := stat.For("C13")
+	rec.SetRule(c13Rule)
+	for _, plen := range []int{0, 16, 32, 4096, 65536} {
+		prefix := make([]byte, plen)
+		gen.Fill(prefix, uint64(plen)+3)
+		stripe := ref.ZeroLanesStripe(prefix)
+		var self ref.XXH32Stream
+		self.Write(prefix)
+		self.Write(stripe[:])
+		if self.Lanes() != [4]uint32{} {
+			t.Fatalf("HARNESS PROBLEM: ZeroLanesStripe does not zero the accumulators: %x", self.Lanes())
+		}
+		tail := make([]byte, 48)
+		gen.Fill(tail, 99)
+		raw := append(append(append([]byte(nil), prefix...), stripe[:]...), tail...)
+		for j := 0; j <= 16; j++ {
+			for _, fresh := range []bool{true, false} {
+				for _, firstSplit := range []int{plen + 16 + j, plen} {
+					ops := []c13Op{{Op: "write", N: firstSplit}, {Op: "sum"}}
+					if firstSplit == plen {
+						ops = append(ops, c13Op{Op: "write", N: 16 + j}, c13Op{Op: "sum"})
+					}
+					ops = append(ops, c13Op{Op: "write", N: 5}, c13Op{Op: "sum"}, c13Op{Op: "write", N: len(raw)}, c13Op{Op: "sumbytes"})
+					c := c13Stream{Fresh: fresh, Data: gen.Data{Segs: []gen.Seg{{K: "raw", N: len(raw), Raw: raw}}}, Ops: ops}
+					pinned(t, "C13", "C13/stream", c, runC13Stream)
+					rec.Class("stream/accumulators-all-zero-after-a-stripe")
+				}
 			}
 		}
 	}
